@@ -28,8 +28,8 @@ CLAIMS = {
          'DESIGN.md §7 C17'),
  'C02': ('proof + correspondence', 'Lean 4 invariant proof over every history from every genesis (EscrowSplit): each account\'s escrow record = sum over its live node subscriptions of the unsettled part (per gigabyte: deposit - ceil(price*used/10^9) with price = deposit/gigabytes; per hour: hourly price x hours left; absent record = empty); consequences: charged within [0, deposit], at removal refund = unsettled part so deposit = charged + refunded with the exact change of every escrow record and bank balance, every settlement / payout moves exactly the drop of the unsettled part to node + fee collector, and only the subscriber\'s own record changes; tied by lock-step execution (sessions profile: several settled sessions per subscription) and the escrowSplit monitor on implementation states',
          'DESIGN.md §7 C02'),
- 'C03': ('proof of the negation on this tree + partial monitors + correspondence', 'Lean 4: hooks_never_halt is stated at full strength and REFUTED on the current tree by a machine-checked reachable witness (halt_by_delay_change: governance lowers the subscription delay while a session winds down -> EndBlock panics; known finding F6, reproduced on the real app); bandwidth_report_bounded shows accepted reports cannot overflow (after fix F2). Every generated history is checked for hook panics on the real app and for the lifecycle-coupling monitor on implementation states; halts other than the listed findings are violations',
-         'DESIGN.md §7 C03'),
+ 'C03': ('proof of a partial statement + proof of the negation of the full one + correspondence', 'Lean 4: hooks_never_halt_partial - along every history from every genesis that satisfies the named hypotheses (H_delay: monotone delay coupling HistOK M; H_actors: no message is signed by a blocked module address; H_amounts: recorded supply of every denomination < 2^255 and allocation grants < 2^192; ParamsOK at genesis) no BeginBlock and no EndBlock halts; proved by showing every one of the 15 panic sites of the two hooks unreachable from the assembled invariant Good (StructInv, EscrowSplit, MoneyInv, LifeInv, NH) and Good inductive. The full statement hooks_never_halt is REFUTED on this tree by machine-checked reachable witnesses: halt_by_delay_change (F6, known finding, outside H_delay) and halt_by_module_node (a module account as node: outside the actor domain D2). F2 and F11 (overflow halts) were repaired. Every generated history is checked for hook panics on the real app; halts other than the listed findings are violations',
+         'DESIGN.md §7 C03, §11'),
  'C04': ('proof + correspondence', 'Lean 4: lifecycle coupling LifeInv is inductive over every operation under the delay coupling D7; complete case analyses of one operation on a session / subscription / node (only forward, removed only when pending and due, demoted only by the owner / own subscription / deadline), pending period = exactly the configured delay, timeliness after every EndBlock (no deadline <= block time remains), settled exactly once (removal is permanent), hourly payouts at most once per due hour and never early; all lifted to every reachable state through the assembled invariant StructInv; tied by lock-step execution with deadline-directed block times and the deadlinesFuture / lifecycle monitors on implementation states',
          'DESIGN.md §7 C04'),
  'C06': ('proof + correspondence', 'Lean 4 invariant proofs over every history from every genesis: 0 <= used <= granted for every allocation; grants of a subscription add up to what was bought (QuotaConserved); used never decreases and grows only at settlement (EndBlock) of one of that holder\'s sessions by at most the reported bytes; sharing conserves the total and is rejected below usage; an exhausted holder cannot start a session; tied by lock-step execution and the allocBounds / quotaConserved monitors on implementation states',
